@@ -1,6 +1,6 @@
 (* C14/Properties.v — property theorems only. *)
 From Coq Require Import Lia.
-From RM Require Import C08.Proofs C14.Model C14.Proofs C14.Proofs2 Gen.C14Reason C14.Source.
+From RM Require Import C08.Proofs C14.Model C14.Proofs C14.Proofs2 Gen.C14Reason Gen.C14Process C14.Source.
 Open Scope Z_scope.
 
 (* Exactly one call stack per entry of the thread list, in the same order, with the same
@@ -295,6 +295,49 @@ Proof.
   intros pre v post H1 H2 H3 H4. split; [apply status_pid_wellformed; assumption|exact status_pid_absent].
 Qed.
 Print Assumptions c14_status_pid.
+
+(* The platform tables and flag bits ARE the source: Os::from_platform_id, Cpu::from_processor_architecture, Cpu::pointer_width
+   (decision trees regenerated from system_info.rs over the PlatformId / ProcessorArchitecture discriminants of format.rs), the
+   raw architectures MinidumpContext::read has an arm for (context.rs), the BreakpadInfoValid bit that guards each thread id in
+   MinidumpBreakpadInfo::read and the MiscInfoFlags bit that guards RawMiscInfo::process_id / process_create_time. *)
+Theorem c14_platform_is_source :
+  (forall id, os_of_platform id = gen_os_of_platform id) /\
+  (forall a, cpu_of_arch a = gen_cpu_of_arch a) /\
+  (forall c, pointer_width c = gen_pointer_width c) /\
+  (forall a, arch_has_context a = gen_arch_has_context a) /\
+  forall d : dump,
+    dump_tid d = match d_bp d with
+                 | Some b => if Z.testbit (b_validity b) GEN_BP_BIT_dump_thread_id then Some (b_dump_tid b) else None
+                 | None => None end /\
+    req_tid d = match d_bp d with
+                | Some b => if Z.testbit (b_validity b) GEN_BP_BIT_requesting_thread_id then Some (b_req_tid b) else None
+                | None => None end /\
+    process_id d = match d_misc d with
+                   | Some m => if Z.testbit (mi_flags1 m) GEN_MISC_BIT_process_id then Some (mi_pid m) else None
+                   | None => option_map status_pid (d_status d) end /\
+    process_create_time d = match d_misc d with
+                            | Some m => if Z.testbit (mi_flags1 m) GEN_MISC_BIT_process_create_time then Some (mi_ctime m) else None
+                            | None => None end.
+Proof.
+  split; [exact os_of_platform_is_source|]. split; [exact cpu_of_arch_is_source|]. split; [exact pointer_width_is_source|].
+  split; [exact arch_has_context_is_source|exact flag_bits_are_source].
+Qed.
+Print Assumptions c14_platform_is_source.
+
+(* into_process_state IS the source: one iteration of the thread -> CallStack closure (dump-writer thread skipped first and
+   keeping its name, `crashing_thread_id.or(requesting_thread_id) == Some(id)`, requesting_thread = Some(i) exactly there,
+   `exception_context.or(thread_context)` there and the thread context elsewhere, Ok / MissingContext), the process id / create
+   time expressions and the choice of the stack memory handed to walk_stack equal the trees translate/c14_reason.py obtains
+   by symbolic execution of minidump-processor/src/processor.rs on every run (Gen/C14Process.v). *)
+Theorem c14_process_state_is_source : forall d : dump,
+  (forall i t req, one_thread d i t req = gen_one_thread d i t req) /\
+  process_id d = gen_process_id d /\ process_create_time d = gen_process_create_time d /\
+  (forall mems t f, choose_stack mems t f = gen_choose_stack mems t f).
+Proof.
+  intro d. split; [intros; apply one_thread_is_source|]. split; [apply pid_time_is_source|].
+  split; [apply pid_time_is_source|intros; apply choose_stack_is_source].
+Qed.
+Print Assumptions c14_process_state_is_source.
 
 Example c14_nonvacuous_round5 :
   crash_reason gen_lk OsWindows X86_64
